@@ -322,7 +322,9 @@ Record aux := mkAux {
   a_certs13 : list bytes;          (* TLS 1.3: the chain the server is configured with *)
   a_alpn13 : bytes;                (* TLS 1.3: protocol in EncryptedExtensions (the server's view) *)
   a_client_finished : bytes; a_server_finished : bytes;   (* recomputed with an independent PRF *)
-  a_master : bytes; a_premaster : bytes }.
+  a_master : bytes; a_premaster : bytes;
+  a_skx_rejected : bool }.         (* DHE under InsecureSkipVerify: the server signed with a pair outside the client's
+                                      Config.SignatureAndHashes; verifyParameters then returns before it keeps the signature bytes *)
 
 Definition ch_log_of (h : hello) : option ch_log :=
   let ex := h_exts h in
@@ -398,6 +400,9 @@ Definition log_of_msgs (cm sm : list (N * bytes)) (a : aux) : option log :=
                  | Some b => do k <- skx_log_of ka vers b; Some (Some k)
                  | None => Some None
                  end;
+      let skxl := if a_skx_rejected a
+                  then option_map (fun k => mkSkxLog (kl_curve k) (kl_point k) (kl_dh k) [] (kl_sig_and_hash k)) skxl
+                  else skxl in
       do ckxl <- match find_msg 16 cm with
                  | Some b => do k <- ckx_log_of ka (match skxl with Some k => kl_curve k | None => 0 end) b;
                              Some (Some k)
